@@ -155,6 +155,11 @@ func runC19(c *core.Ctx) *core.Violation {
 				metric.CreateMetric(cmd)
 				start() // restart after the error
 			case "sync-source-cut":
+				if t.Choose(2) == 1 {
+					// the source takes the connection back (AUTH, REPLCONF accepted) but rejects the continuing PSYNC
+					e.Src.RejectReconnect = []string{"NOMASTERLINK Can't SYNC while not connected with my master", "LOADING Redis is loading the dataset in memory", "ERR unknown"}[t.Choose(3)]
+					c.Probe("reconnect_psync_rejected")
+				}
 				if len(e.Src.Links) > 0 {
 					e.Src.Links[0].Conn.Reset()
 				}
@@ -396,7 +401,7 @@ func init() {
 			"sentinels are 17 characters from an alphabet without digits 0/1 and letters l/I/O, so an accidental match is practically impossible",
 		},
 		RealVsStub: "real: run.CmdSync/CmdRestore/CmdRump mains, dbSync, checkpoint, slotsupervisor, metric.NewMetricRest, conf.GetSafeOptions, pkg/libs/log; simulated: TCP, peers (AUTH required), clock, scheduling, connection resets, process restart",
-		ProbeNames: []string{"auth_rejected_with_echo", "scenario_sync", "scenario_sync-target-cut", "scenario_sync-source-cut", "scenario_restore", "scenario_rump", "scenario_checkpoint", "scenario_supervisor", "scenario_dump", "scenario_decode", "level_debug", "level_error"},
+		ProbeNames: []string{"auth_rejected_with_echo", "reconnect_psync_rejected", "scenario_sync", "scenario_sync-target-cut", "scenario_sync-source-cut", "scenario_restore", "scenario_rump", "scenario_checkpoint", "scenario_supervisor", "scenario_dump", "scenario_decode", "level_debug", "level_error"},
 		FaultNames: []string{"conn_reset"},
 	})
 }
